@@ -3,6 +3,7 @@ import Srtla.Spec.ClassicRef
 import Srtla.Lemmas.Conn
 import Srtla.Lemmas.SelectFrame
 import Srtla.Lemmas.ClassicRef
+import Srtla.Lemmas.ClassicRun
 import Srtla.Props.C06
 /-!
 # C10 — classic mode reproduces the reference `srtla_send` algorithm
@@ -603,5 +604,649 @@ example :
     ((@handleHousekeeping Int fixScalar { s with cfg := { classic := false } } 20000).1.links.map (·.core.window))
       = [5007, 20000] := by
   decide +kernel
+
+open Srtla.ClassicRun Srtla.SysInv
+
+/-! ## 4. Round 3: the reference MACHINE, in lock-step
+
+`Spec/ClassicRef.lean` now also defines the reference as a state machine (`RLink`, `REv`, `rstep`,
+`rrun`: per link `usable`, `live`, `window`, `inFlight`, outstanding numbers `out`; events `route`,
+`srtlaAck`, `nak`, `cumAck`, `tick` and the environment events `linkState`, `linkReset`).  This
+section relates every event of the shell model to steps of that machine on an ABSTRACTION of the shell
+state, and composes the per-event statements over runs.
+
+Two abstractions are needed, and that is the deliberate difference between the implementation and
+the reference (it is stated as the abstraction, not as a hypothesis):
+* `absRoute s now` — in-flight := logged + waiting in the batch queue.  This is what `select_conn`
+  must be given for the shell to make the reference's choice (the property's first sentence).
+* `absSent s now`  — in-flight := logged only.  This is what the `+29` test and the ACK / NAK attribution
+  read: the implementation registers a packet (`register_packet`) when its BATCH is put on the socket,
+  the reference (`reg_pkt`) when the packet is ROUTED.
+`C10_abs_def` spells both out; they coincide on every link whose queue is empty.  Consequently no single
+machine state can be carried along a history: `C10_observation_ack_rule` is a concrete run on which the
+reference machine carried from the start ends with a different window; `C10_observation_choice_control`
+and `C10_observation_nak_memory` are the analogous runs for a choice and for NAK attribution.  What does
+hold, for EVERY event from EVERY invariant state: re-abstract, run the machine, get the same choice and
+the same window vector (`C10_lockstep_step`, run form `C10_lockstep_run`).
+-/
+
+/-! ### 4.1 `refSelect` is the first argmax -/
+
+/-- **`select_conn` characterised.**  `refSelect ls = some i` iff link `i` is usable, its score
+`window / (inFlight + 1)` beats the initial best score `-1`, no usable link scores higher, and every
+usable link before it scores strictly lower (ties go to the lowest-numbered link); `none` iff no
+usable link scores above `-1`; for non-negative windows and in-flight counts (every reachable state: C06
+range, C02 count) `none` iff there is no usable link at all. -/
+theorem C10_refSelect_argmax (ls : List RefLink) :
+    (∀ i, refSelect ls = some i ↔
+      ∃ l, ls[i]? = some l ∧ l.timedOut = false ∧ l.window / (l.inFlight + 1) > -1 ∧
+        (∀ (j : Nat) l', ls[j]? = some l' → l'.timedOut = false →
+          l'.window / (l'.inFlight + 1) ≤ l.window / (l.inFlight + 1)) ∧
+        (∀ (j : Nat) l', j < i → ls[j]? = some l' → l'.timedOut = false →
+          l'.window / (l'.inFlight + 1) < l.window / (l.inFlight + 1))) ∧
+    (refSelect ls = none ↔ ∀ l ∈ ls, l.timedOut = false → l.window / (l.inFlight + 1) ≤ -1) ∧
+    ((∀ l ∈ ls, 0 ≤ l.window ∧ 0 ≤ l.inFlight) → (refSelect ls = none ↔ ∀ l ∈ ls, l.timedOut = true)) := by
+  refine ⟨fun i => refSelect_some_iff ls i, refSelect_none_iff ls, fun hnn => ?_⟩
+  rw [refSelect_none_iff]
+  constructor
+  · intro h l hl
+    cases ht : l.timedOut with
+    | true => rfl
+    | false =>
+      have h1 := h l hl ht
+      obtain ⟨hw, hi⟩ := hnn l hl
+      have h2 := refScore_nonneg l hw hi
+      omega
+  · intro h l hl ht
+    rw [h l hl] at ht; cases ht
+
+/-- Four links: scores 2000, (timed out), 2500, 2500 — the first of the two maxima (index 2) wins; with
+everything timed out nobody is chosen; a usable link with window 0 (score 0 > -1) is still chosen. -/
+example :
+    let ls : List RefLink :=
+      [ { timedOut := false, window := 20000, inFlight := 9 }, { timedOut := true, window := 60000, inFlight := 0 },
+        { timedOut := false, window := 40000, inFlight := 15 }, { timedOut := false, window := 20000, inFlight := 7 } ]
+    refSelect ls = some 2 ∧ ls.map refScore = [2000, 60000, 2500, 2500] ∧
+    (∀ l ∈ ls, 0 ≤ l.window ∧ 0 ≤ l.inFlight) ∧
+    refSelect [{ timedOut := true, window := 60000, inFlight := 0 }] = none ∧
+    refSelect [{ timedOut := false, window := 0, inFlight := 5 }] = some 0 := by
+  decide
+
+/-! ### 4.2 The abstractions -/
+
+section lock
+variable [Scalar F]
+
+/-- The two abstractions, spelled out (definition check).  They differ ONLY in the in-flight count and
+the outstanding set: `absRoute` counts and lists what is still waiting in the batch queue, `absSent`
+does not.  `usable` is the expression of `C10_view`; `live` is `connected ∧ last_received.is_some()`. -/
+theorem C10_abs_def (s : Sys F) (now : Nat) :
+    absSent s now = s.links.map (fun l =>
+      { usable := l.core.connected && l.core.phase != .registering &&
+                  !timedOutAt l.core.connected l.established l.graceDeadline l.core.lastReceived
+                    s.cfg.connTimeoutMs now,
+        live := l.core.connected && l.core.lastReceived.isSome,
+        window := l.core.window, inFlight := l.core.inFlight, out := l.core.log.map Prod.fst }) ∧
+    absRoute s now = s.links.map (fun l =>
+      { usable := l.core.connected && l.core.phase != .registering &&
+                  !timedOutAt l.core.connected l.established l.graceDeadline l.core.lastReceived
+                    s.cfg.connTimeoutMs now,
+        live := l.core.connected && l.core.lastReceived.isSome,
+        window := l.core.window, inFlight := l.core.inFlight + (l.queue.length : Int),
+        out := l.core.log.map Prod.fst ++ l.queue.filterMap fun it => it.2.1.map toI32 }) ∧
+    (absRoute s now).map RLink.view = refView s now ∧
+    rWindows (absRoute s now) = s.links.map (·.core.window) ∧
+    rWindows (absSent s now) = s.links.map (·.core.window) ∧
+    ((∀ l ∈ s.links, l.queue = []) → absRoute s now = absSent s now) :=
+  ⟨rfl, rfl, absRoute_view s now, rWindows_absRoute s now, rWindows_absSent s now, fun h => by
+    unfold absRoute absSent
+    exact List.map_congr_left fun l hl => absRouteL_eq_absSentL _ _ l (h l hl)⟩
+
+/-- On `exSys` (link 1 has 12 logged packets and 3 datagrams in its batch queue; link 2 is timed out under
+the configured 3000 ms): the two abstractions differ exactly in link 1's in-flight count. -/
+example :
+    (absRoute exSys 4000).map (·.inFlight) = [9, 15, 0] ∧ (absSent exSys 4000).map (·.inFlight) = [9, 12, 0] ∧
+    (absRoute exSys 4000).map (·.usable) = [true, true, false] ∧
+    (absRoute exSys 4000).map (·.live) = [true, true, true] ∧
+    rWindows (absSent exSys 4000) = [20000, 40000, 60000] ∧
+    (rstep (absRoute exSys 4000) (.route (some 5))).2 = some 1 := by
+  decide +kernel
+
+end lock
+
+/-! ### 4.3 Who earns an SRTLA ACK, who is charged a NAK -/
+
+/-- **The holder, named** (reference machine).  For one SRTLA-acknowledged number `seq` arriving on
+`onLink`:
+* link `k` earns it iff `k` is the arrival link and holds `seq`, or the arrival link does not hold it
+  and `k` is the FIRST link in list order that does;
+* nobody earns it iff nobody holds it;
+* if at most one link holds `seq` the arrival link is irrelevant: the holder is the one a plain
+  list-order scan (the C reference's) finds;
+* on the window vector the step is exactly `refSackEvent` with `earnedOf` = that holder and its
+  in-flight count AFTER the removal (`+29` iff that count × 1000 > window), then `+1` on every live link. -/
+theorem C10_sack_holder (st : RState) (onLink : Nat) (seq : Int) :
+    (∀ k, holder st onLink seq = some k ↔
+      (k = onLink ∧ ∃ l, st[onLink]? = some l ∧ l.out.contains seq = true) ∨
+      ((∀ l, st[onLink]? = some l → l.out.contains seq = false) ∧
+        ∃ l, st[k]? = some l ∧ l.out.contains seq = true ∧
+          ∀ (j : Nat) l', j < k → st[j]? = some l' → l'.out.contains seq = false)) ∧
+    (holder st onLink seq = none ↔ ∀ l ∈ st, l.out.contains seq = false) ∧
+    ((∀ (i j : Nat) a b, st[i]? = some a → st[j]? = some b → a.out.contains seq = true →
+        b.out.contains seq = true → i = j) → holder st onLink seq = firstHolder st seq) ∧
+    earnedOf st onLink seq =
+      (match holder st onLink seq with
+       | some k => (st[k]?).map fun l => (k, l.inFlight - 1)
+       | none => none) ∧
+    rWv (rSackOne st onLink seq) = refSackEvent (rWv st) (earnedOf st onLink seq) := by
+  refine ⟨holder_spec st onLink seq, holder_none st onLink seq, holder_eq_firstHolder_of_unique st onLink seq, ?_,
+    rWv_rSackOne st onLink seq⟩
+  unfold earnedOf
+  cases holder st onLink seq with
+  | none => rfl
+  | some k => dsimp only; cases st[k]? <;> rfl
+
+/-- Three links; 7 is held by links 1 and 2, 8 by link 2 only.  An ACK of 7 arriving on link 2 is earned
+by link 2 (arrival link first); arriving on link 0 by link 1 (first holder in list order); an ACK of 9 by
+nobody; for 8 (unique holder) arrival-first and the plain scan agree.  Link 1: window 1000, 3 in flight →
+2 after removal, `2000 > 1000`: `+29`, then `+1` on the two live links. -/
+example :
+    let st : RState :=
+      [ { usable := true, live := true, window := 20000, inFlight := 0, out := [] },
+        { usable := true, live := true, window := 1000, inFlight := 3, out := [6, 7, 5] },
+        { usable := true, live := false, window := 30000, inFlight := 2, out := [7, 8] } ]
+    holder st 2 7 = some 2 ∧ holder st 0 7 = some 1 ∧ firstHolder st 7 = some 1 ∧ holder st 0 9 = none ∧
+    holder st 0 8 = some 2 ∧ firstHolder st 8 = some 2 ∧
+    earnedOf st 0 7 = some (1, 2) ∧
+    rWv (rSackOne st 0 7) = [(20001, true), (1030, true), (30000, false)] ∧
+    (rSackOne st 0 7).map (·.out) = [[], [6, 5], [7, 8]] ∧ (rSackOne st 0 7).map (·.inFlight) = [0, 2, 2] := by
+  decide
+
+/-- **One NAK, named** (reference machine): link `k` is charged iff (the sender remembers link `r`:
+`k = r` and link `r` holds the number) or (it remembers nothing: `k` is the first holder in list order);
+the charge on the window vector is `refNakEvent` on that link, otherwise nothing moves. -/
+theorem C10_nak_target (st : RState) (seq : Int) (remembered : Option Nat) :
+    (∀ r k, remembered = some r →
+      (nakTarget st seq remembered = some k ↔ k = r ∧ ∃ l, st[r]? = some l ∧ l.out.contains seq = true)) ∧
+    (remembered = none → nakTarget st seq remembered = firstHolder st seq) ∧
+    rWv (rNak st seq remembered) =
+      (match nakTarget st seq remembered with
+       | some k => refNakEvent (rWv st) k
+       | none => rWv st) := by
+  refine ⟨?_, fun h => by rw [h]; rfl, rWv_rNak st seq remembered⟩
+  intro r k hr
+  subst hr
+  unfold nakTarget
+  dsimp only
+  cases hs : st[r]? with
+  | none =>
+    dsimp only
+    constructor
+    · intro h; cases h
+    · rintro ⟨-, l, hl, -⟩; cases hl
+  | some l =>
+    dsimp only
+    by_cases hc : l.out.contains seq = true
+    · rw [if_pos hc]
+      constructor
+      · intro h
+        have : r = k := by simpa using h
+        exact ⟨this.symm, l, rfl, hc⟩
+      · rintro ⟨e, -⟩; rw [e]
+    · rw [if_neg hc]
+      constructor
+      · intro h; cases h
+      · rintro ⟨-, l', hl', hc'⟩
+        cases hl'; exact absurd hc' hc
+
+/-- 7 is held by links 1 and 2: remembered link 2 → link 2 is charged; remembered link 0 (which does not
+hold it) → nobody; nothing remembered → the first holder, link 1 (window 1000: floored). -/
+example :
+    let st : RState :=
+      [ { usable := true, live := true, window := 20000, inFlight := 0, out := [] },
+        { usable := true, live := true, window := 1000, inFlight := 3, out := [6, 7, 5] },
+        { usable := true, live := false, window := 30000, inFlight := 2, out := [7, 8] } ]
+    nakTarget st 7 (some 2) = some 2 ∧ nakTarget st 7 (some 0) = none ∧ nakTarget st 7 none = some 1 ∧
+    rWindows (rNak st 7 (some 2)) = [20000, 1000, 29900] ∧ rWindows (rNak st 7 (some 0)) = [20000, 1000, 30000] ∧
+    rWindows (rNak st 7 none) = [20000, 1000, 30000] ∧ (rNak st 7 none).map (·.inFlight) = [0, 2, 2] := by
+  decide
+
+/-- The accounting invariant of a shell state with the property's literal numbers.  This is, word for
+word, `Props.SysLevel.SysInv` (that file imports this one, so the name cannot be used here); it holds of
+the initial state and along every run (`SysLevel.SysInv_init`, `SysLevel.SysInv_run`). -/
+def AcctInv (s : Sys F) : Prop :=
+  ∀ l ∈ s.links, LogInv l.core ∧ 1000 ≤ l.core.window ∧ l.core.window ≤ 60000 ∧ 0 ≤ l.core.inFlight ∧
+    ∀ it ∈ l.queue, ∀ sq, it.2.1 = some sq → sq < 2147483648
+
+section lock2
+variable [Scalar F]
+
+omit [Scalar F] in
+theorem acctInv_all (s : Sys F) (h : AcctInv s) : All LinkInv s.links := by
+  intro l hl
+  obtain ⟨a, b, c, d, f⟩ := h l hl
+  exact ⟨a, b, c, d, f⟩
+
+/-- What the abstraction of a list of connection cores is (definition check): entry `k` is
+`(u k, connected ∧ heard, window, in_flight_packets, logged numbers)`. -/
+theorem C10_absFrom_def (u : Nat → Bool) (cs : Links) (k : Nat) :
+    (absFrom u 0 cs)[k]? = (cs[k]?).map fun c =>
+      { usable := u k, live := c.connected && c.lastReceived.isSome, window := c.window,
+        inFlight := c.inFlight, out := c.log.map Prod.fst } := by
+  rw [getElem?_absFrom, Nat.zero_add]
+  rfl
+
+/-- **`C10_windows_uplink` with the holders named** (item: "the `es` are exactly, per SRTLA-ACKed number
+in datagram order, the first link — arrival link first — that holds it, if any").  From a state that
+satisfies the accounting invariant, with `idx` a link: the lists `es`, `ns` of `C10_windows_uplink` are
+the ones the reference machine computes on the abstraction of the cores:
+`es = sackEs idx st₁ sacks` — entry by entry `earnedOf` (see `C10_sack_holder`) in the state the earlier
+numbers of the datagram left — and `ns = nakNs st₂ naks` — the links `nakTarget` names (see
+`C10_nak_target`), where the tracker's memory `rememberedM` is `trk.get` (≤ 5000 ms old, not displaced)
+resolved to the index of the link with that conn id. -/
+theorem C10_windows_uplink_named (u : Nat → Bool) (s : Sys F) (idx : Nat) (inc : Incoming) (now : Nat)
+    (hclassic : s.cfg.classic = true) (hinv : AcctInv s) (hidx : idx < s.links.length) :
+    let st0 := absFrom u 0 (cores s.links)
+    let st1 := rrun st0 (inc.acks.map fun a => REv.cumAck (toI32 a))
+    let st2 := (inc.sacks.map toI32).foldl (fun st a => rSackOne st idx a) st1
+    let es := sackEs idx st1 (inc.sacks.map toI32)
+    let ns := nakNs st2 (inc.naks.map fun n => (toI32 n, rememberedM (cores s.links) s.trk n now))
+    es.length = inc.sacks.length ∧ ns.length ≤ inc.naks.length ∧
+    wv (cores (processConnectionEvents s idx inc now).1.links) =
+      ns.foldl refNakEvent (es.foldl refSackEvent (wv (cores s.links))) :=
+  pCE_wv_named u s idx inc now hclassic (allCore_cores _ (acctInv_all s hinv)) hidx
+
+omit [Scalar F] in
+/-- `sackEs`, `nakNs`, `rememberedM`, spelled out (definition check). -/
+theorem C10_named_def (st : RState) (onLink : Nat) (a : Int) (rest : List Int) (r : Option Nat)
+    (nrest : List (Int × Option Nat)) (cs : Links) (trk : Tracker) (nak now : Nat) :
+    sackEs onLink st [] = [] ∧
+    sackEs onLink st (a :: rest) = earnedOf st onLink a :: sackEs onLink (rSackOne st onLink a) rest ∧
+    nakNs st [] = [] ∧
+    nakNs st ((a, r) :: nrest) =
+      (match nakTarget st a r with
+       | some k => k :: nakNs (rNak st a r) nrest
+       | none => nakNs (rNak st a r) nrest) ∧
+    rememberedM cs trk nak now =
+      (match trk.get nak now with
+       | some cid => cs.findIdx? (·.connId == cid)
+       | none => none) := ⟨rfl, rfl, rfl, rfl, rfl⟩
+
+/-- **The ACK / NAK fan-out IS the reference machine** (classic mode), full machine state: for every
+`usable` assignment `u`, the abstraction of the cores after `process_connection_events` is the machine
+run on `fanEvents` — one `cumAck` per cumulative SRT ACK, one `srtlaAck` event with the datagram's
+numbers on the arrival link, one `nak` per NAKed number with what the tracker remembers — windows, in-flight
+counts, outstanding sets and live flags included.  In particular the `+29` test reads the SAME number on
+both sides: the in-flight count after the acknowledged packet was removed (`absSent`: logged packets
+only — packets still waiting in a batch queue are not counted; that is the implementation's reading). -/
+theorem C10_lockstep_fanout (u : Nat → Bool) (s : Sys F) (idx : Nat) (inc : Incoming) (now : Nat)
+    (hclassic : s.cfg.classic = true) (hinv : AcctInv s) (hidx : idx < s.links.length) :
+    absFrom u 0 (cores (processConnectionEvents s idx inc now).1.links) =
+      rrun (absFrom u 0 (cores s.links))
+        ((inc.acks.map fun a => REv.cumAck (toI32 a)) ++ [REv.srtlaAck (inc.sacks.map toI32) idx] ++
+          (inc.naks.map fun n => REv.nak (toI32 n) (rememberedM (cores s.links) s.trk n now))) :=
+  (processConnectionEvents_sim u s idx inc now hclassic (allCore_cores _ (acctInv_all s hinv)) hidx).1
+
+/-- **Uplink events in lock-step.**  Classic mode, accounting invariant.  Either the event changes
+nothing (empty datagram / unknown conn id), or — `idx` the arrival link, `inc` what
+`process_uplink_packet` parsed — the `(window, live)` vector afterwards is that of the reference machine
+run from `absSent s now` on: ONE environment event for the arrival link (`linkReset idx` for a REG_ERR
+tear-down, otherwise `linkState idx …`: it was heard from, REG3 connected it, …) followed by `fanEvents`.
+For a datagram that carries cumulative ACKs, SRTLA ACKs or NAKs the WHOLE machine state agrees
+(`absSent` after = machine after: usable, live, windows, in-flight counts, outstanding sets). -/
+theorem C10_lockstep_uplink (s : Sys F) (connId : Nat) (data : List UInt8) (now : Nat)
+    (hclassic : s.cfg.classic = true) (hinv : AcctInv s) :
+    (handleUplinkPacket s connId data now).1 = s ∨
+    ∃ idx l env, s.links.findIdx? (·.core.connId == connId) = some idx ∧ s.links[idx]? = some l ∧
+      (env = .linkReset idx ∨ ∃ u lv, env = .linkState idx u lv) ∧
+      rWv (absSent (handleUplinkPacket s connId data now).1 now) =
+        rWv (rrun (absSent s now)
+          (env :: fanEvents (cores s.links) s.trk idx (processUplinkPacket l idx s.reg s.clientKnown data now).2.2 now)) ∧
+      (((processUplinkPacket l idx s.reg s.clientKnown data now).2.2.acks ≠ [] ∨
+        (processUplinkPacket l idx s.reg s.clientKnown data now).2.2.sacks ≠ [] ∨
+        (processUplinkPacket l idx s.reg s.clientKnown data now).2.2.naks ≠ []) →
+        absSent (handleUplinkPacket s connId data now).1 now =
+          rrun (absSent s now)
+            (env :: fanEvents (cores s.links) s.trk idx
+              (processUplinkPacket l idx s.reg s.clientKnown data now).2.2 now)) :=
+  uplink_sim s connId data now hclassic (acctInv_all s hinv)
+
+omit [Scalar F] in
+/-- `fanEvents`, spelled out (definition check). -/
+theorem C10_fanEvents_def (cs : Links) (trk : Tracker) (idx : Nat) (inc : Incoming) (now : Nat) :
+    fanEvents cs trk idx inc now =
+      (inc.acks.map fun a => REv.cumAck (toI32 a)) ++ [REv.srtlaAck (inc.sacks.map toI32) idx] ++
+        (inc.naks.map fun n => REv.nak (toI32 n) (rememberedM cs trk n now)) := rfl
+
+/-- **Client events in lock-step** (classic mode, guard off, registered, score domain; any non-empty
+datagram: data, control, retransmit-flagged, inside a critical window).  The machine's `route` on
+`absRoute s now` outputs `refSelect (refView s now)`; that is the link the shell puts the datagram on
+(`C10_choice`, repeated here); no window moves on either side — except that an injected socket error on
+the batch flush this datagram triggered tears the CHOSEN link down, which is the environment event
+`linkReset` on the machine. -/
+theorem C10_lockstep_client (s : Sys F) (pkt : List UInt8) (now : Nat)
+    (hclassic : s.cfg.classic = true) (hguard : s.cfg.stallDeselect = false)
+    (hreg : s.reg.hasConnected = true) (hpkt : pkt ≠ [])
+    (hdom : ∀ l ∈ s.links, 0 ≤ l.core.inFlight ∧ l.core.inFlight + l.queue.length + 1 ≤ 2147483647) :
+    let r := rstep (absRoute s now) (.route ((Codec.getSrtSequenceNumberS pkt).map toI32))
+    r.2 = refSelect (refView s now) ∧
+    (∀ i, r.2 = some i →
+      ∃ l l' wire, s.links[i]? = some l ∧
+        (handleSrtPacket s pkt now).1.lastSelected = some i ∧
+        (handleSrtPacket s pkt now).1.links[i]? = some l' ∧
+        (∀ j, j ≠ i → (handleSrtPacket s pkt now).1.links[j]? = (s.links[j]?).map (clearGuard s.cfg)) ∧
+        (handleSrtPacket s pkt now).2.wire = wire ∧
+        Landed (clearGuard s.cfg l) pkt (Codec.getSrtSequenceNumberS pkt) now s.failNext l' wire) ∧
+    (r.2 = none →
+      (handleSrtPacket s pkt now).1.links = s.links.map (clearGuard s.cfg) ∧
+      (handleSrtPacket s pkt now).1.lastSelected = s.lastSelected ∧
+      (handleSrtPacket s pkt now).2.wire = []) ∧
+    (windowsOf (handleSrtPacket s pkt now).1 = rWindows r.1 ∨
+     ∃ i l, r.2 = some i ∧ s.links[i]? = some l ∧
+       l.regime.batchSize ≤ l.queue.length + 1 ∧ s.failNext.contains l.core.connId = true ∧
+       windowsOf (handleSrtPacket s pkt now).1 = rWindows (rstep r.1 (.linkReset i)).1) := by
+  intro r
+  obtain ⟨c1, -, c3⟩ := client_sim s pkt now hclassic hguard hreg hpkt hdom
+  obtain ⟨a1, a2⟩ := C10_choice s pkt now hclassic hguard hreg hpkt hdom
+  refine ⟨c1, fun i hi => a1 i (c1 ▸ hi), fun hn => a2 (c1 ▸ hn), ?_⟩
+  rcases c3 with h | ⟨i, l, h1, h2, h3, h4, h5⟩
+  · exact Or.inl h
+  · exact Or.inr ⟨i, l, c1.trans h1, h2, h3, h4, h5⟩
+
+/-- **Housekeeping ticks and periodic flushes in lock-step** (classic mode).  The reference's `tick`
+does nothing; a tick moves the windows of exactly the links torn down for a reconnect attempt
+(environment `linkReset`: window 20000, disconnected, registering) and of no other link.  A flush is no
+reference event at all and moves no window (it is where the implementation's deferred `reg_pkt`s
+happen: `absSent` catches up with `absRoute`). -/
+theorem C10_lockstep_hk_flush (s : Sys F) (now : Nat) :
+    (s.cfg.classic = true →
+      ∃ resets : List Nat,
+        (∀ j ∈ resets, j < s.links.length ∧ ∃ l', (handleHousekeeping s now).1.links[j]? = some l' ∧
+          l'.core.window = 20000 ∧ l'.core.connected = false ∧ l'.core.phase = .registering) ∧
+        windowsOf (handleHousekeeping s now).1 =
+          rWindows (rrun (absSent s now) (.tick :: resets.map REv.linkReset))) ∧
+    windowsOf (flushAllBatches s now).1 = rWindows (rrun (absSent s now) []) :=
+  ⟨fun hc => hk_sim s now hc, flush_sim s now⟩
+
+/-- What "the model's step corresponds to the reference machine's step(s) on the abstraction" means,
+event by event. -/
+def LockStep (s : Sys F) : Ev → Prop
+  | .client now pkt => pkt ≠ [] →
+    let r := rstep (absRoute s now) (.route ((Codec.getSrtSequenceNumberS pkt).map toI32))
+    r.2 = refSelect (refView s now) ∧
+    (∀ i, r.2 = some i →
+      ∃ l l' wire, s.links[i]? = some l ∧
+        (handleSrtPacket s pkt now).1.lastSelected = some i ∧
+        (handleSrtPacket s pkt now).1.links[i]? = some l' ∧
+        (∀ j, j ≠ i → (handleSrtPacket s pkt now).1.links[j]? = (s.links[j]?).map (clearGuard s.cfg)) ∧
+        (handleSrtPacket s pkt now).2.wire = wire ∧
+        Landed (clearGuard s.cfg l) pkt (Codec.getSrtSequenceNumberS pkt) now s.failNext l' wire) ∧
+    (r.2 = none →
+      (handleSrtPacket s pkt now).1.links = s.links.map (clearGuard s.cfg) ∧
+      (handleSrtPacket s pkt now).1.lastSelected = s.lastSelected ∧
+      (handleSrtPacket s pkt now).2.wire = []) ∧
+    (windowsOf (handleSrtPacket s pkt now).1 = rWindows r.1 ∨
+     ∃ i l, r.2 = some i ∧ s.links[i]? = some l ∧
+       l.regime.batchSize ≤ l.queue.length + 1 ∧ s.failNext.contains l.core.connId = true ∧
+       windowsOf (handleSrtPacket s pkt now).1 = rWindows (rstep r.1 (.linkReset i)).1)
+  | .uplink now connId data =>
+    (handleUplinkPacket s connId data now).1 = s ∨
+    ∃ idx l env, s.links.findIdx? (·.core.connId == connId) = some idx ∧ s.links[idx]? = some l ∧
+      (env = .linkReset idx ∨ ∃ u lv, env = .linkState idx u lv) ∧
+      rWv (absSent (handleUplinkPacket s connId data now).1 now) =
+        rWv (rrun (absSent s now)
+          (env :: fanEvents (cores s.links) s.trk idx (processUplinkPacket l idx s.reg s.clientKnown data now).2.2 now)) ∧
+      (((processUplinkPacket l idx s.reg s.clientKnown data now).2.2.acks ≠ [] ∨
+        (processUplinkPacket l idx s.reg s.clientKnown data now).2.2.sacks ≠ [] ∨
+        (processUplinkPacket l idx s.reg s.clientKnown data now).2.2.naks ≠ []) →
+        absSent (handleUplinkPacket s connId data now).1 now =
+          rrun (absSent s now)
+            (env :: fanEvents (cores s.links) s.trk idx
+              (processUplinkPacket l idx s.reg s.clientKnown data now).2.2 now))
+  | .flush now => windowsOf (flushAllBatches s now).1 = rWindows (rrun (absSent s now) [])
+  | .hk now =>
+    ∃ resets : List Nat,
+      (∀ j ∈ resets, j < s.links.length ∧ ∃ l', (handleHousekeeping s now).1.links[j]? = some l' ∧
+        l'.core.window = 20000 ∧ l'.core.connected = false ∧ l'.core.phase = .registering) ∧
+      windowsOf (handleHousekeeping s now).1 =
+        rWindows (rrun (absSent s now) (.tick :: resets.map REv.linkReset))
+  | .setCfg cfg => windowsOf (step s (.setCfg cfg)).1 = windowsOf s
+  | .crit d => windowsOf (step s (.crit d)).1 = windowsOf s
+  | .failNext c => windowsOf (step s (.failNext c)).1 = windowsOf s
+
+/-- **Per-event simulation, every `Ev` of `Sys.step`.**  From a state that satisfies the run invariant
+`RunInv B` (accounting invariant, logged + queued `≤ B` on every link, classic mode, guard off,
+`has_connected`) with `B + 1 ≤ i32::MAX`: the model's step is the reference machine's step(s) on the
+abstraction — same chosen link for the packet (no override for retransmit-flagged data or inside a
+critical window), same window vector afterwards.
+
+The reference state is RE-DERIVED from the shell state at each event, it is not carried from event to
+event: the window vector is the shell's; for `route` (client events) the machine is given
+in-flight = logged + queued, so its divisor is `logged + queued + 1` (`absRoute`); for the window rules
+(uplink events) it is given in-flight = logged and outstanding = the logged numbers (`absSent`).  The
+three `C10_observation_*` runs show that a carried machine would not do. -/
+theorem C10_lockstep_step (B : Nat) (s : Sys F) (e : Ev) (h : RunInv B s) (hB : B + 1 ≤ 2147483647) :
+    LockStep s e := by
+  have hall : All LinkInv s.links := fun l hl => (h.pot l hl).1
+  cases e with
+  | client now pkt =>
+    intro hpkt
+    exact C10_lockstep_client s pkt now h.classic h.guard h.reg hpkt (runInv_dom B s h hB)
+  | uplink now cid data => exact uplink_sim s cid data now h.classic hall
+  | flush now => exact flush_sim s now
+  | hk now => exact hk_sim s now h.classic
+  | setCfg cfg => rfl
+  | crit d => rfl
+  | failNext c => rfl
+
+omit [Scalar F] in
+/-- `RunInv`, `KeepsMode`, `runS`, spelled out (definition check). -/
+theorem C10_runInv_def (B : Nat) (s : Sys F) :
+    (RunInv B s ↔
+      (∀ l ∈ s.links, LinkInv l ∧ l.core.inFlight + (l.queue.length : Int) ≤ (B : Int)) ∧
+      s.cfg.classic = true ∧ s.cfg.stallDeselect = false ∧ s.reg.hasConnected = true) ∧
+    (∀ cfg, KeepsMode (.setCfg cfg) ↔ cfg.classic = true ∧ cfg.stallDeselect = false) ∧
+    (∀ now pkt, KeepsMode (.client now pkt)) ∧ (∀ now c d, KeepsMode (.uplink now c d)) ∧
+    (∀ now, KeepsMode (.flush now)) ∧ (∀ now, KeepsMode (.hk now)) ∧ (∀ d, KeepsMode (.crit d)) ∧
+    (∀ c, KeepsMode (.failNext c)) :=
+  ⟨⟨fun h => ⟨h.pot, h.classic, h.guard, h.reg⟩, fun h => ⟨h.1, h.2.1, h.2.2.1, h.2.2.2⟩⟩,
+   fun _ => Iff.rfl, fun _ _ => trivial, fun _ _ _ => trivial, fun _ => trivial, fun _ => trivial,
+   fun _ => trivial, fun _ => trivial⟩
+
+/-- **Lock-step along runs** (`C10_lockstep_run`), with the reference state re-derived from the shell
+state at every event (see `C10_lockstep_step`).  Hypotheses on the INITIAL state and the mode only:
+the accounting invariant (`AcctInv` = `SysLevel.SysInv`; it holds of the initial state), classic mode with
+the guard off, `has_connected`, configuration reloads in the run keep the mode, and logged + queued of
+every link is `≤ B` with `B + (number of events) + 1 ≤ i32::MAX` (each client event raises it by at most
+one — that is all the score domain of `C10_choice` needs).  Then EVERY event of the run, in the state
+the earlier events produced (`runS s₀ pre` — the left fold of `step`, i.e. `(Sys.run s₀ pre).1`:
+`SysLevel.run_eq_foldl`), satisfies `LockStep`: same choice, same windows as the reference machine on the
+abstraction of that state.  The run invariant itself holds in every reached state. -/
+theorem C10_lockstep_run (B : Nat) (s0 : Sys F) (evs : List Ev)
+    (hinv : AcctInv s0) (hclassic : s0.cfg.classic = true) (hguard : s0.cfg.stallDeselect = false)
+    (hreg : s0.reg.hasConnected = true) (hmode : ∀ e ∈ evs, KeepsMode e)
+    (hpot : ∀ l ∈ s0.links, l.core.inFlight + (l.queue.length : Int) ≤ (B : Int))
+    (hB : B + evs.length + 1 ≤ 2147483647) :
+    ∀ pre e post, evs = pre ++ e :: post →
+      RunInv (B + pre.length) (runS s0 pre) ∧ LockStep (runS s0 pre) e := by
+  intro pre e post hsplit
+  have h0 : RunInv B s0 := ⟨fun l hl => ⟨acctInv_all s0 hinv l hl, hpot l hl⟩, hclassic, hguard, hreg⟩
+  have hpre : ∀ x ∈ pre, KeepsMode x := fun x hx => hmode x (by rw [hsplit]; exact List.mem_append_left _ hx)
+  have hrun := runInv_run B s0 pre h0 hpre
+  have hlen : pre.length + 1 ≤ evs.length := by
+    rw [hsplit]; simp only [List.length_append, List.length_cons]; omega
+  exact ⟨hrun, C10_lockstep_step (B + pre.length) (runS s0 pre) e hrun (by omega)⟩
+
+end lock2
+
+/-! ### 4.4 Non-vacuity, and three OBSERVATIONS: runs on which a CARRIED reference machine parts ways
+
+`lsSys1` / `lsSys2`: one / two connected, live, registered links (conn ids 11, 12) with empty logs and
+queues, classic mode, guard off, `has_connected`.  Datagrams: `lsData n` = SRT data packet with sequence
+number `n`; `lsCtl` = an SRT control packet (no sequence number); `lsSack n` / `lsNak n` = SRTLA ACK / SRT NAK
+of `n`. -/
+
+def lsLink (id : Nat) (w : Int) : FLink Int :=
+  { core := { connId := id, connected := true, window := w, lastReceived := some 0, phase := .live },
+    rtt := @Rtt.RttTracker.new Int fixScalar, bitrate := @Rtt.Bitrate.new Int fixScalar 0,
+    established := 1, qualMult := 1000 }
+
+def lsSys1 : Sys Int :=
+  { links := [lsLink 11 2000], reg := { id := [], probeId := [], hasConnected := true },
+    cfg := { classic := true, stallDeselect := false } }
+
+def lsSys2 : Sys Int :=
+  { links := [lsLink 11 20000, lsLink 12 20000], reg := { id := [], probeId := [], hasConnected := true },
+    cfg := { classic := true, stallDeselect := false } }
+
+def lsData (n : UInt8) : List UInt8 := [0, 0, 0, n]
+def lsCtl : List UInt8 := [0x80, 0x01, 0, 0]
+def lsSack (n : UInt8) : List UInt8 := [0x91, 0x00, 0, 0, 0, 0, 0, n]
+def lsNak (n : UInt8) : List UInt8 := [0x80, 0x03, 0, 0, 0, 0, 0, n]
+
+theorem lsLink_inv (id : Nat) (w : Int) (h1 : 1000 ≤ w) (h2 : w ≤ 60000) :
+    LogInv (lsLink id w).core ∧ 1000 ≤ (lsLink id w).core.window ∧ (lsLink id w).core.window ≤ 60000 ∧
+      0 ≤ (lsLink id w).core.inFlight ∧ ∀ it ∈ (lsLink id w).queue, ∀ sq, it.2.1 = some sq → sq < 2147483648 :=
+  ⟨⟨List.nodup_nil, fun _ h => (by cases h), rfl⟩, h1, h2, Int.le_refl _, fun _ h => (by cases h)⟩
+
+theorem lsSys1_inv : AcctInv lsSys1 := by
+  intro l hl
+  have : l = lsLink 11 2000 := by simpa [lsSys1] using hl
+  subst this
+  exact lsLink_inv 11 2000 (by decide) (by decide)
+
+theorem lsSys2_inv : AcctInv lsSys2 := by
+  intro l hl
+  have : l = lsLink 11 20000 ∨ l = lsLink 12 20000 := by simpa [lsSys2] using hl
+  rcases this with rfl | rfl
+  · exact lsLink_inv 11 20000 (by decide) (by decide)
+  · exact lsLink_inv 12 20000 (by decide) (by decide)
+
+/-- The hypotheses of `C10_lockstep_run` are satisfiable (here with `B = 0` and a 6-event run that
+contains every kind of event the observation runs below use). -/
+example :
+    AcctInv lsSys2 ∧ lsSys2.cfg.classic = true ∧ lsSys2.cfg.stallDeselect = false ∧ lsSys2.reg.hasConnected = true ∧
+    (∀ l ∈ lsSys2.links, l.core.inFlight + (l.queue.length : Int) ≤ ((0 : Nat) : Int)) ∧
+    (∀ e ∈ [Ev.client 10 (lsData 5), .flush 30, .hk 35, .setCfg { classic := true, stallDeselect := false },
+            .uplink 40 11 (lsNak 5), .failNext 11], KeepsMode e) := by
+  refine ⟨lsSys2_inv, rfl, rfl, rfl, by decide, ?_⟩
+  intro e he
+  simp only [List.mem_cons, List.not_mem_nil, or_false] at he
+  rcases he with rfl | rfl | rfl | rfl | rfl | rfl <;> first | trivial | exact ⟨rfl, rfl⟩
+
+/-- `C10_windows_uplink_named` / `C10_lockstep_fanout` on the two-link state of the earlier examples
+(link 1 holds 6, 7, 8; window 1000): SRTLA ACKs `[7, 99]` arriving on link 0 and a NAK of 8 —
+`es = [some (1, 2), none]` (7: link 1, first holder, 2 left in flight; 99: nobody), `ns = [1]`, and the
+whole machine state after the fan-out is the abstraction of the cores. -/
+example :
+    let mk (id : Nat) (w : Int) (log : List (Int × Nat)) : FLink Int :=
+      { core := { connId := id, connected := true, window := w, inFlight := log.length, log := log,
+                  lastReceived := some 5, phase := .live },
+        rtt := @Rtt.RttTracker.new Int fixScalar, bitrate := @Rtt.Bitrate.new Int fixScalar 0, qualMult := 1000 }
+    let s : Sys Int :=
+      { links := [mk 1 20000 [], mk 2 1000 [(6, 0), (7, 0), (8, 0)]], reg := { id := [], probeId := [] },
+        cfg := { classic := true } }
+    let inc : Incoming := { sacks := [7, 99], naks := [8] }
+    let st0 := absFrom (fun _ => true) 0 (cores s.links)
+    sackEs 0 st0 [7, 99] = [some (1, 2), none] ∧
+    nakNs ([7, 99].foldl (fun st a => rSackOne st 0 a) st0) [(8, rememberedM (cores s.links) s.trk 8 100)] = [1] ∧
+    absFrom (fun _ => true) 0 (cores (@processConnectionEvents Int fixScalar s 0 inc 100).1.links) =
+      rrun st0 (fanEvents (cores s.links) s.trk 0 inc 100) ∧
+    rWindows (rrun st0 (fanEvents (cores s.links) s.trk 0 inc 100)) = [20002, 1000] ∧
+    (rrun st0 (fanEvents (cores s.links) s.trk 0 inc 100)).map (·.out) = [[], [6]] := by
+  decide +kernel
+
+/-- **OBSERVATION 1 (not a violation of C10 as worded) — the `+29` test: a CARRIED reference machine ends
+with a different window.**  Link 0, window 2000.  Three data packets are
+routed and flushed (3 logged), a fourth is routed and still waits in the batch queue when the SRTLA ACK of
+packet 1 arrives.  The implementation tests the logged count after removal: `2 × 1000 > 2000` is false — no
+`+29`, window `2001`.  The reference counted packet 4 when it was routed: `3 × 1000 > 2000` — `+29`, window
+`2030`.  Re-abstracted at the ACK (`absSent`: 3 in flight, 1 queued) the machine agrees with the shell
+(`C10_lockstep_step`); carried from the start it does not.  The property's wording ("+29 … only when
+in-flight × 1000 exceeds the window", with "in-flight" and "queued" distinguished in its first sentence)
+is met by the implementation; the reference `srtla_send.c`, which has no queue, is not reproduced. -/
+theorem C10_observation_ack_rule :
+    let evs : List Ev :=
+      [.client 10 (lsData 1), .client 11 (lsData 2), .client 12 (lsData 3), .flush 30, .client 31 (lsData 4),
+       .uplink 40 11 (lsSack 1)]
+    let ref : List REv :=
+      [.route (some 1), .route (some 2), .route (some 3), .tick, .route (some 4), .linkState 0 true true,
+       .srtlaAck [1] 0]
+    windowsOf (@runS Int fixScalar lsSys1 evs) = [2001] ∧
+    rWindows (rrun (absRoute lsSys1 10) ref) = [2030] ∧
+    ((@runS Int fixScalar lsSys1 (evs.take 5)).links.map fun l => (l.core.inFlight, l.queue.length)) = [(3, 1)] ∧
+    rWindows (rrun (absSent (@runS Int fixScalar lsSys1 (evs.take 5)) 40)
+      [.linkState 0 true true, .srtlaAck [1] 0]) = [2001] := by
+  decide +kernel
+
+/-- **OBSERVATION 2 (not a violation of C10 as worded) — a queued control datagram counts in the divisor: a
+CARRIED reference machine makes a different choice.**  Two links,
+windows 20000.  An SRT control packet is routed (link 0, lowest index) and waits in link 0's batch queue;
+the next data packet: the implementation scores link 0 as `20000 / (0 + 1 + 1) = 10000` and picks link 1;
+the reference never counts a control packet (`reg_pkt` is for data only), scores both 20000 and picks
+link 0.  Re-abstracted (`absRoute`: link 0 in-flight 1) the machine picks link 1 like the shell.  Within
+the property's wording (`in-flight + queued + 1`). -/
+theorem C10_observation_choice_control :
+    (@runS Int fixScalar lsSys2 [.client 10 lsCtl, .client 11 (lsData 1)]).lastSelected = some 1 ∧
+    ((@runS Int fixScalar lsSys2 [.client 10 lsCtl, .client 11 (lsData 1)]).links.map fun l => l.queue.length) = [1, 1] ∧
+    (rstep (rstep (absRoute lsSys2 10) (.route none)).1 (.route (some 1))).2 = some 0 ∧
+    (rstep (absRoute (@runS Int fixScalar lsSys2 [.client 10 lsCtl]) 11) (.route (some 1))).2 = some 1 := by
+  decide +kernel
+
+/-- **OBSERVATION 3 (not a violation of C10 / C05 as worded) — NAK attribution by the sender's memory: a
+CARRIED reference machine ends with a different window.**  Packet 5 is sent on
+link 0 (logged there); its retransmission is routed to link 1 (better score) and still waits in link 1's
+queue — the sequence tracker now remembers link 1 — when the NAK of 5 arrives.  The implementation asks
+the remembered link only; link 1 has not logged 5 yet: NOBODY is charged, windows `[20000, 20000]`.  The
+reference scans every link's log: link 0 holds 5 and pays `-100`: `[19900, 20000]`.  With the memory as an
+input (`nak 5 (some 1)`) the machine agrees with the shell.  This is C05's reading ("no other uplink can
+be charged while the sender remembers the carrier"); it is not the reference's. -/
+theorem C10_observation_nak_memory :
+    let evs : List Ev := [.client 10 (lsData 5), .flush 30, .client 31 (lsData 5), .uplink 40 11 (lsNak 5)]
+    let ref : List REv := [.route (some 5), .tick, .route (some 5), .linkState 0 true true, .nak 5 none]
+    windowsOf (@runS Int fixScalar lsSys2 evs) = [20000, 20000] ∧
+    rWindows (rrun (absRoute lsSys2 10) ref) = [19900, 20000] ∧
+    ((@runS Int fixScalar lsSys2 (evs.take 3)).links.map fun l => (l.core.keys, l.queue.length)) = [([5], 0), ([], 1)] ∧
+    rememberedM (cores (@runS Int fixScalar lsSys2 (evs.take 3)).links) (@runS Int fixScalar lsSys2 (evs.take 3)).trk 5 40
+      = some 1 ∧
+    rWindows (rrun (absSent (@runS Int fixScalar lsSys2 (evs.take 3)) 40) [.linkState 0 true true, .nak 5 (some 1)])
+      = [20000, 20000] := by
+  decide +kernel
+
+/-- The lock-step statements, concretely, on the last event of the first observation run (the hypotheses of
+`C10_lockstep_step` hold there by `C10_lockstep_run`): the uplink arm's own witnesses. -/
+example :
+    let s := @runS Int fixScalar lsSys1
+      [.client 10 (lsData 1), .client 11 (lsData 2), .client 12 (lsData 3), .flush 30, .client 31 (lsData 4)]
+    (@processUplinkPacket Int fixScalar (lsLink 11 2000) 0 s.reg s.clientKnown (lsSack 1) 40).2.2.sacks = [1] ∧
+    absSent (@handleUplinkPacket Int fixScalar s 11 (lsSack 1) 40).1 40 =
+      rrun (absSent s 40) (.linkState 0 true true :: fanEvents (cores s.links) s.trk 0 { sacks := [1] } 40) ∧
+    absSent (@handleUplinkPacket Int fixScalar s 11 (lsSack 1) 40).1 40 =
+      [{ usable := true, live := true, window := 2001, inFlight := 2, out := [2, 3] }] ∧
+    absRoute (@handleUplinkPacket Int fixScalar s 11 (lsSack 1) 40).1 40 =
+      [{ usable := true, live := true, window := 2001, inFlight := 3, out := [2, 3, 4] }] := by
+  decide +kernel
+
+/-- A classic housekeeping tick and a failed threshold flush as environment resets: on `exSys`-like
+states the `resets` of `C10_lockstep_hk_flush` / the `linkReset` of `C10_lockstep_client` are non-empty. -/
+example :
+    let mk (id : Nat) (w : Int) (heard : Nat) : FLink Int :=
+      { core := { connId := id, connected := true, window := w, lastReceived := some heard, phase := .live },
+        rtt := @Rtt.RttTracker.new Int fixScalar, bitrate := @Rtt.Bitrate.new Int fixScalar 0, qualMult := 1000,
+        established := 1, lastAttemptMs := 10000, lastKeepaliveSent := some 19900 }
+    let s : Sys Int :=
+      { links := [mk 1 5000 19990, mk 2 7000 5000],
+        reg := { id := [], probeId := [], hasConnected := true, active := 2 }, cfg := { classic := true } }
+    windowsOf (@handleHousekeeping Int fixScalar s 20000).1 = [5000, 20000] ∧
+    rWindows (rrun (absSent s 20000) (.tick :: [1].map REv.linkReset)) = [5000, 20000] ∧
+    -- a client datagram whose threshold flush fails (regime `low`: batch of 4; send failure injected)
+    (let q : List QItem := [(lsData 1, some 1, 5), (lsData 2, some 2, 6), (lsData 3, some 3, 7)]
+     let l0 : FLink Int := { lsLink 11 3000 with regime := .low, queue := q }
+     let t : Sys Int := { lsSys1 with links := [l0], failNext := [11] }
+     windowsOf (@handleSrtPacket Int fixScalar t (lsData 4) 9).1 = [20000] ∧
+     rWindows (rstep (rstep (absRoute t 9) (.route (some 4))).1 (.linkReset 0)).1 = [20000] ∧
+     (rstep (absRoute t 9) (.route (some 4))).2 = some 0) := by
+  decide +kernel
+
 
 end Srtla.Props.C10
